@@ -9,7 +9,7 @@ import Glom.Generated.C06Facts
   state), and every finite history of calls, PATH_STAR toggles and
   registrations — on any of the registries a process holds (module-level,
   one per Glommer), of any type: in particular of a *base* of a type whose
-  handler an earlier call has memoised (`c06_register_related`,
+  handler an earlier call has memoised (`c06_lookup_register_lookup`,
   `c06_register_base_wins`).
 
   `Vars`: `c06_vars_*` — on a heap of dict objects, evaluating a spec that
@@ -44,7 +44,10 @@ variable {P H O R : Type}
 
 /-- **Facts obligation** (regenerated from /repo on every run): `Path.from_text` is the
     check / overflow-bypass / store / return sequence modelled by `fromText`, keyed per PATH_STAR;
-    `get_handler` memoises under `(type(obj), op)` — the exact type; `register` and `register_op`
+    `get_handler` memoises under `(type(obj), op)` — the exact type — and is, in execution order:
+    key; on a miss the guard `if ret is False and raise_exc: raise UnregisteredTarget` *before* the
+    store; then the read from the memo, the same guard again (a remembered `False` raises as well),
+    the return — what `getHandler` does; `register` and `register_op`
     reset the memo wholesale as their last unconditional step (a new dict or `.clear()`: either is a
     reset *provided the memo is the only place a looked-up handler is kept*: `c06_facts_memo_only`);
     `Vars.glomit` builds a `ScopeVars` from the spec's mapping and
@@ -57,8 +60,8 @@ theorem c06_facts_wf :
     Glom.Generated.pathCacheInit = "{True: {}, False: {}}" ∧
     Glom.Generated.createUsesPathStar = true ∧
     Glom.Generated.getHandlerShape =
-      ["cache_key = (obj_type, op)", "if cache_key not in self._type_cache",
-       "return self._type_cache[cache_key]", "self._type_cache[cache_key] = ret"] ∧
+      ["cache_key = (obj_type, op)", "if cache_key not in self._type_cache {", "guard", "store", "}",
+       "read", "guard", "return"] ∧
     Glom.Generated.memoResetBy.map (·.1) = ["register", "register_op"] ∧
     Glom.Generated.memoResetBy.all (fun r => r.2 == "self._type_cache = {}" || r.2 == "self._type_cache.clear()") = true ∧
     Glom.Generated.memoKeyType = "obj_type = type(obj)" ∧
@@ -104,9 +107,9 @@ theorem c06_path_cache (parse : Bool → String → P) (maxCache : Nat) (star : 
 /-- **The handler memo never changes an answer** and is consistent with the registrations in
     force (a lookup that raises is not memoised). -/
 theorem c06_handler_memo (compute : String × String → Option H) (hc : HCache H) (key : String × String)
-    (hinv : HInv compute hc) :
-    (getHandler compute hc key).1 = compute key ∧ HInv compute (getHandler compute hc key).2 :=
-  getHandler_spec compute hc key hinv
+    (raiseExc : Bool) (hinv : HInv compute hc) :
+    (getHandler compute hc key raiseExc).1 = compute key ∧ HInv compute (getHandler compute hc key raiseExc).2 :=
+  getHandler_spec compute hc key raiseExc hinv
 
 /-- **A call behaves as if there were no caches**: whatever the cache contents (warm, cold,
     overflowing), every answer it gets, hence its outcome, is the cache-free one; PATH_STAR and the
@@ -173,17 +176,6 @@ theorem c06_after_any_calls (parse : Bool → String → P) (compute : R → Str
   | nil => simp [refHistory]
   | cons c r ih => simp only [List.map_cons, List.cons_append, refHistory, ih]
 
-/-- **A registration of a related type is seen by the next lookup.**  Whatever was looked up
-    before (in particular the very same `(type, op)`, whose handler is then memoised under the
-    exact type of the target), after `register` on registry `rg` a lookup in that registry gives
-    what the new registrations give; the other registries are not affected by it. -/
-theorem c06_register_related (parse : Bool → String → P) (compute : R → String × String → Option H)
-    (maxCache : Nat) (before : List (HOp P H O R)) (rg : Nat) (f : R → R) (strat : Strategy P H O) (fuel : Nat)
-    (w : World P H R) (hinv : WorldInv parse compute w) :
-    (runHistory parse compute maxCache w (before ++ [.register rg f, .call strat fuel])).1 =
-      refHistory parse compute w.pathStar w.reg (before ++ [.register rg f, .call strat fuel]) :=
-  (c06_history parse compute maxCache _ w hinv).1
-
 /-- the reference of a lookup–register–lookup history, spelled out: the second lookup answers
     with the registrations *after* the `register`, the first with those before -/
 theorem c06_lookup_register_lookup (parse : Bool → String → P) (compute : R → String × String → Option H)
@@ -192,7 +184,33 @@ theorem c06_lookup_register_lookup (parse : Bool → String → P) (compute : R 
         [.call (lookup1 rg ty op) 2, .register rg f, .call (lookup1 rg ty op) 2]).1 =
       [some (compute (w.reg rg) (ty, op)), some (compute (f (w.reg rg)) (ty, op))] := by
   rw [(c06_history parse compute maxCache _ w hinv).1]
-  simp [refHistory, runPure, lookup1, setAt]
+  simp [refHistory, runPure, lookup1, setAt, ansOf_true]
+
+/-- **A lookup made with `raise_exc=False` never changes what a raising lookup does.**  From any
+    state of the memo that is consistent with the registrations — in particular one that holds a
+    `False` stored by an earlier `raise_exc=False` lookup of the same `(type, op)`, which every
+    invariant world may (`c06_history` keeps the invariant through such lookups) — two direct
+    lookups in a row, with any values of `raise_exc`, each show what the registrations give: the
+    handler, else UnregisteredTarget (`raise_exc=True`) or `False` (`raise_exc=False`). -/
+theorem c06_quiet_then_raising_lookup (parse : Bool → String → P) (compute : R → String × String → Option H)
+    (maxCache : Nat) (rg : Nat) (ty op : String) (rx1 rx2 : Bool)
+    (w : World P H R) (hinv : WorldInv parse compute w) :
+    (runHistory parse compute maxCache w [.call (lookupX rg ty op rx1) 2, .call (lookupX rg ty op rx2) 2]).1 =
+      [some (lookupRef rx1 (compute (w.reg rg) (ty, op))), some (lookupRef rx2 (compute (w.reg rg) (ty, op)))] := by
+  rw [(c06_history parse compute maxCache _ w hinv).1]
+  cases hc : compute (w.reg rg) (ty, op) <;> cases rx1 <;> cases rx2 <;>
+    simp [refHistory, runPure, lookupX, ansOf, lookupRef, hc]
+
+/-- the code before 8b51f6e: after a `raise_exc=False` lookup of a type without handler, the raising
+    lookup of the same key *returns* `False` (the caller then calls `False(...)`: TypeError) instead
+    of raising UnregisteredTarget — the second check in `get_handler` is forced -/
+theorem c06_memo_false_counterexample :
+    let c : String × String → Option Nat := fun _ => none
+    let s1 := (getHandlerOld (P := Unit) c [] ("int", "iterate") false).2
+    (getHandlerOld (P := Unit) c s1 ("int", "iterate") true).1 = Answer.noHandler ∧
+    ansOf (P := Unit) true (getHandler c (getHandler c [] ("int", "iterate") false).2 ("int", "iterate") true).1 =
+      Answer.handler none := by
+  refine ⟨rfl, rfl⟩
 
 /-- **A registration wins for every type whose nearest registered candidate it is** (concrete
     registry: types with their MRO and their virtual bases).  `X` is among the candidates of a
@@ -424,85 +442,91 @@ theorem c06_vars_history {V : Type} (h : VHeap V) (base : Nat) (hb : base < h.le
 
 /-! ## "inputs untouched" on a heap with object identity (`Model/C06Heap.lean`)
 
-  The full statement of this half of C06 — *every* spec without Assign / Delete / scope assignment
-  into target-owned objects / mutating callable leaves every object that existed before the call
-  unchanged in structure and identity — is proved here for the constructs of the heap model:
-  T expressions made of item steps and every arithmetic operator (`+ - * // / % ** & | ^ ~ -`) over
-  scalars, lists, tuples, bytearrays, sets, frozensets and dicts (as left operand — a container
-  owned by the target — and as right operand: a literal of the spec, rebuilt or passed through, or
-  another T expression reading the target), nested to any depth; literals in argument position
-  (`arg_val`); dict / list / tuple specs in AUTO mode; `Coalesce` with and without default.  It is
-  named `…_partial` nowhere because each theorem below is the full statement *for its construct*;
-  the constructs outside this model (user callables, Call / Invoke, Fold / Group accumulators,
-  Match, Iter, S-rooted expressions, `Vars` — see `c06_vars_frame`) keep the property "observed". -/
+  The model *writes*: where glom stores into an object (`ret[field] = val`, `ret.append(val)`,
+  `result.update(…)`, `result.extend(…)`) it stores into the heap cell, and a catalogue callable
+  (`append9`) writes the object it is handed.  The theorems say *which* cells an evaluation may
+  write: only those of objects it created itself — provided the spec names no mutating callable
+  (`Sp.pureCalls`, the "no mutating user callable" clause of the property text; forced:
+  `c06_mutating_callable_counterexample`).
+
+  Constructs: T expressions made of item steps and every arithmetic operator
+  (`+ - * // / % ** & | ^ ~ -`) over scalars, lists, tuples, bytearrays, sets, frozensets and dicts
+  (as left operand — a container owned by the target — and as right operand: a literal of the
+  spec, rebuilt or passed through, or another T expression reading the target), nested to any
+  depth; literals in argument position (`arg_val`); dict / list / tuple specs in AUTO mode;
+  `Coalesce` with and without default; `Call` specs and plain callable specs over the catalogue.
+  The constructs outside this model (Invoke, Fold / Group accumulators, Match, Iter, S-rooted
+  expressions; `Vars`: see `c06_vars_frame`) keep the property "observed". -/
 
 open Glom in
-/-- **Frame theorem for T arithmetic.**  Evaluating any T expression — item steps and arithmetic
-    operations in any number and order, with arguments that are literals, rebuilt containers or
-    nested T expressions — against any target in any heap only *appends* cells: no cell that
-    existed before the evaluation (reachable from the target or not, owned by the spec or not) is
-    written, whether the evaluation returns or raises. -/
-theorem c06_tarith_frame (steps : Steps) (tgt : Val) (h : Heap) :
+/-- **Frame theorem for every modelled construct**, in both modes: `_glom(target, spec, scope)`
+    (AUTO: dict / list / tuple specs, Coalesce, Call, callables, T) and
+    `arg_val(target, spec, scope)` (literals rebuilt, T evaluated): no object that existed before
+    the evaluation (reachable from the target or not, owned by the spec or not) is written,
+    whether the evaluation returns or raises — every address of the heap holds afterwards the cell
+    it held, and the heap afterwards is the heap before followed by the objects created since. -/
+theorem c06_spec_frame (sp : Sp) (tgt : Val) (h : Heap) (hp : sp.pureCalls = true) :
+    ((∀ a, a < h.length → (evalAuto sp tgt h).2[a]? = h[a]?) ∧ ∃ ext, (evalAuto sp tgt h).2 = h ++ ext) ∧
+    ((∀ a, a < h.length → (evalArg sp tgt h).2[a]? = h[a]?) ∧ ∃ ext, (evalArg sp tgt h).2 = h ++ ext) :=
+  ⟨⟨(evalAuto_ext sp hp tgt h).2, (evalAuto_ext sp hp tgt h).exists_append⟩,
+   ⟨(evalArg_ext sp hp tgt h).2, (evalArg_ext sp hp tgt h).exists_append⟩⟩
+
+open Glom in
+/-- **Frame theorem for T arithmetic** (the instance of `c06_spec_frame` the seeded changes break):
+    evaluating any T expression — item steps and arithmetic operations in any number and order,
+    with arguments that are literals, rebuilt containers, calls or nested T expressions — leaves
+    every object that existed as it was. -/
+theorem c06_tarith_frame (steps : Steps) (tgt : Val) (h : Heap) (hp : steps.pureCalls = true) :
+    (∀ a, a < h.length → (evalAuto (.t steps) tgt h).2[a]? = h[a]?) ∧
     ∃ ext, (evalAuto (.t steps) tgt h).2 = h ++ ext :=
-  evalAuto_ext (.t steps) tgt h
-
-open Glom in
-/-- … spelled out per object: every address that existed holds the same cell afterwards
-    (structure *and* identity of every object, the target's containers included). -/
-theorem c06_tarith_cells (steps : Steps) (tgt : Val) (h : Heap) (a : Nat) (ha : a < h.length) :
-    (evalAuto (.t steps) tgt h).2[a]? = h[a]? :=
-  (evalAuto_ext (.t steps) tgt h).get a ha
+  (c06_spec_frame (.t steps) tgt h (by simpa [Sp.pureCalls] using hp)).1
 
 open Glom in
 /-- **The result of T arithmetic is a new object** (or a scalar): when the expression ends with an
     arithmetic operation its value is not an object that existed before — in particular not the
     target's own container (`T['tags'] | {'b'}` is not `target['tags']`). -/
 theorem c06_tarith_fresh (steps : Steps) (tgt : Val) (h : Heap) (a : Nat) (h' : Heap)
+    (hp : steps.pureCalls = true)
     (hend : steps.endsArith = true) (hev : evalAuto (.t steps) tgt h = (.ok (.ref a), h')) :
     h.length ≤ a :=
-  evalAuto_fresh (.t steps) tgt h (.ref a) h' hev (by simpa [Sp.mustBeNew] using hend) a rfl
-
-open Glom in
-/-- **Frame theorem for every modelled construct**, in both modes: `_glom(target, spec, scope)`
-    (AUTO: dict / list / tuple specs, Coalesce, T) and `arg_val(target, spec, scope)` (literals
-    rebuilt, T evaluated) never write a cell that existed. -/
-theorem c06_spec_frame (sp : Sp) (tgt : Val) (h : Heap) :
-    (∃ ext, (evalAuto sp tgt h).2 = h ++ ext) ∧ (∃ ext, (evalArg sp tgt h).2 = h ++ ext) :=
-  ⟨evalAuto_ext sp tgt h, evalArg_ext sp tgt h⟩
+  evalAuto_fresh (.t steps) (by simpa [Sp.pureCalls] using hp) tgt h (.ref a) h' hev
+    (by simpa [Sp.mustBeNew] using hend) a rfl
 
 open Glom in
 /-- **Containers glom builds are new objects**: the value of a dict spec, of a list spec, of a
     tuple spec whose last step builds one, of a Coalesce all of whose alternatives (and default)
-    build one, of a T expression ending in arithmetic (`Sp.mustBeNew`) is never an object that
-    existed before the call; in argument mode the same for every rebuilt literal (`Sp.newArg`). -/
-theorem c06_spec_fresh (sp : Sp) (tgt : Val) (h : Heap) (a : Nat) (h' : Heap) :
+    build one, of a call of a callable that builds one, of a T expression ending in arithmetic
+    (`Sp.mustBeNew`) is never an object that existed before the call; in argument mode the same
+    for every rebuilt literal (`Sp.newArg`). -/
+theorem c06_spec_fresh (sp : Sp) (tgt : Val) (h : Heap) (a : Nat) (h' : Heap) (hp : sp.pureCalls = true) :
     (sp.mustBeNew = true → evalAuto sp tgt h = (.ok (.ref a), h') → h.length ≤ a) ∧
     (sp.newArg = true → evalArg sp tgt h = (.ok (.ref a), h') → h.length ≤ a) :=
-  ⟨fun hn hev => evalAuto_fresh sp tgt h (.ref a) h' hev hn a rfl,
-   fun hn hev => evalArg_fresh sp tgt h (.ref a) h' hev hn a rfl⟩
+  ⟨fun hn hev => evalAuto_fresh sp hp tgt h (.ref a) h' hev hn a rfl,
+   fun hn hev => evalArg_fresh sp hp tgt h (.ref a) h' hev hn a rfl⟩
 
 open Glom in
 /-- **Any number of calls.**  After any sequence of calls (the same spec again, other specs, other
     targets) every object that existed at the start is what it was: each call of a history starts
     from inputs that no earlier call has touched. -/
-theorem c06_calls_frame (calls : List (Sp × Val)) (h : Heap) :
+theorem c06_calls_frame (calls : List (Sp × Val)) (h : Heap) (hp : calls.all (fun c => c.1.pureCalls) = true) :
     (∃ ext, runCalls calls h = h ++ ext) ∧ ∀ a, a < h.length → (runCalls calls h)[a]? = h[a]? :=
-  ⟨runCalls_ext calls h, fun a ha => (runCalls_ext calls h).get a ha⟩
+  ⟨(runCalls_ext calls h hp).exists_append, (runCalls_ext calls h hp).2⟩
 
 open Glom in
 /-- **What an observer sees is unchanged**: a value that denoted a tree before the calls (the
     target, any container inside it, a container of the spec) denotes the same tree afterwards —
     the "structure" reading of the snapshot the correspondence takes. -/
 theorem c06_view_preserved (calls : List (Sp × Val)) (h : Heap) (fuel : Nat) (v : Val) (p : PV)
+    (hp : calls.all (fun c => c.1.pureCalls) = true)
     (hv : view6 h fuel v = some p) : view6 (runCalls calls h) fuel v = some p :=
-  view6_ext (runCalls_ext calls h) fuel v p hv
+  view6_ext (runCalls_ext calls h hp) fuel v p hv
 
 open Glom in
 /-- **The outcome does not depend on what else the heap holds.**  For a heap without dangling
     references, a target in it and a spec whose own objects are in it: evaluating the spec in that
     heap, or in the same heap followed by any number of further objects (what earlier calls
     created), gives the same outcome as far as anyone can observe — the tree the value denotes, or
-    the error. -/
+    the error.  (No purity is needed here: also a mutating callable does the same in both heaps.) -/
 theorem c06_outcome_heap_independent (sp : Sp) (tgt : Val) (h g : Heap) (fuel : Nat)
     (hh : heapClosed h = true) (ht : Val.closed6 h.length tgt = true) (hs : sp.closed h.length = true) :
     outView fuel (evalAuto sp tgt (h ++ g)) = outView fuel (evalAuto sp tgt h) :=
@@ -510,26 +534,82 @@ theorem c06_outcome_heap_independent (sp : Sp) (tgt : Val) (h g : Heap) (fuel : 
 
 open Glom in
 /-- **Repeating a call, or making it after any other calls, never changes its outcome** (heap
-    level): whatever calls were made before — the same spec on the same target, other specs, other
-    targets, calls that raised — the call's outcome is the one it has when made first.  Together
-    with `c06_calls_frame` (the inputs are what they were) this is the second half of C06 for the
-    constructs of the heap model, with no cache involved at all. -/
+    level): whatever calls without mutating callables were made before — the same spec on the same
+    target, other specs, other targets, calls that raised — the call's outcome is the one it has
+    when made first.  Together with `c06_calls_frame` (the inputs are what they were) this is the
+    second half of C06 for the constructs of the heap model, with no cache involved at all. -/
 theorem c06_repeat_same (sp : Sp) (tgt : Val) (h : Heap) (calls : List (Sp × Val)) (fuel : Nat)
+    (hp : calls.all (fun c => c.1.pureCalls) = true)
     (hh : heapClosed h = true) (ht : Val.closed6 h.length tgt = true) (hs : sp.closed h.length = true) :
     outView fuel (evalAuto sp tgt (runCalls calls h)) = outView fuel (evalAuto sp tgt h) := by
-  obtain ⟨g, hg⟩ := runCalls_ext calls h
+  obtain ⟨g, hg⟩ := (runCalls_ext calls h hp).exists_append
   rw [hg]
   exact outView_more sp tgt h g fuel hh ht hs
 
 open Glom in
-/-- **The checker holds on the model**: for every spec, target and heap the observation of the
-    model's evaluation satisfies `checkArith` (the decidable form of the two statements above that
-    the driver evaluates on the implementation's observation). -/
-theorem c06_arith_checker (sp : Sp) (tgt : Val) (h : Heap) :
+/-- **Both halves, in one history.**  Any finite interleaving of cache-level events (calls as adaptive
+    strategies over path / handler queries, PATH_STAR toggles, registrations on any registry) and
+    heap-level calls (specs of the heap model without mutating callable, on targets of the initial
+    heap), started from any world satisfying the cache invariant and any heap without dangling
+    references: every call's outcome is the reference one — a cache-level call's as if there were
+    no caches, a heap-level call's as if it were made first, in the initial heap —, the cache
+    invariant holds afterwards, and no object of the initial heap has been written.
+    (The two state components do not interact in the model: a heap-level call makes no cache query;
+    see the Limits of the property.) -/
+theorem c06_mixed_history (parse : Bool → String → P) (compute : R → String × String → Option H)
+    (maxCache fuel : Nat) (h0 : Heap) (hh : heapClosed h0 = true) :
+    ∀ (ops : List (MOp P H O R)) (w : World P H R) (g : Heap),
+      WorldInv parse compute w → mixedOk h0.length ops = true →
+      (runMixed parse compute maxCache fuel (w, h0 ++ g) ops).1 =
+        refMixed parse compute fuel h0 w.pathStar w.reg ops ∧
+      WorldInv parse compute (runMixed parse compute maxCache fuel (w, h0 ++ g) ops).2.1 ∧
+      ∃ g', (runMixed parse compute maxCache fuel (w, h0 ++ g) ops).2.2 = h0 ++ g' := by
+  intro ops
+  induction ops with
+  | nil => intro w g hinv _; exact ⟨rfl, hinv, g, rfl⟩
+  | cons op rest ih =>
+    intro w g hinv hok
+    cases op with
+    | heap sp tgt =>
+      simp only [mixedOk, Bool.and_eq_true] at hok
+      obtain ⟨⟨⟨hp, hc⟩, ht⟩, hrest⟩ := hok
+      have hext : Ext h0 (evalAuto sp tgt (h0 ++ g)).2 :=
+        (Ext.refl h0).trans (⟨by simp, fun a ha => List.getElem?_append_left ha⟩ : Ext h0 (h0 ++ g)) |>.trans
+          (evalAuto_ext sp hp tgt (h0 ++ g))
+      obtain ⟨g', hg'⟩ := hext.exists_append
+      have hrec := ih w g' hinv hrest
+      simp only [runMixed, refMixed]
+      rw [hg']
+      refine ⟨?_, hrec.2.1, hrec.2.2⟩
+      rw [hrec.1, outView_more sp tgt h0 g fuel hh ht hc]
+    | cache cop =>
+      simp only [mixedOk] at hok
+      have hstep := stepWorld_inv (O := O) parse compute maxCache w cop hinv
+      cases cop with
+      | call strat f =>
+        have hc := runCached_spec parse compute maxCache strat f w [] hinv
+        have hrec := ih (runCached parse compute maxCache strat f w []).2 g hc.2.1 hok
+        simp only [runMixed, stepWorld, refMixed]
+        rw [hc.2.2.1, hc.2.2.2] at hrec
+        exact ⟨by rw [hrec.1, hc.1], hrec.2.1, hrec.2.2⟩
+      | setStar b =>
+        have hrec := ih { w with pathStar := b } g hinv hok
+        simp only [runMixed, stepWorld, refMixed]
+        exact hrec
+      | register rg f =>
+        have hrec := ih { w with reg := setAt w.reg rg (f (w.reg rg)), hc := setAt w.hc rg [] } g hstep hok
+        simp only [runMixed, stepWorld, refMixed]
+        exact hrec
+
+open Glom in
+/-- **The checker holds on the model**: for every spec without mutating callable, target and heap
+    the observation of the model's evaluation satisfies `checkArith` (the decidable form of the two
+    statements above that the driver evaluates on the implementation's observation). -/
+theorem c06_arith_checker (sp : Sp) (tgt : Val) (h : Heap) (hp : sp.pureCalls = true) :
     checkArith h sp (observe6 h.length (evalAuto sp tgt h)) = true := by
   unfold checkArith observe6
   simp only [Bool.and_eq_true, decide_eq_true_eq, Bool.or_eq_true, Bool.not_eq_true']
-  refine ⟨(evalAuto_ext sp tgt h).take, ?_⟩
+  refine ⟨(evalAuto_ext sp hp tgt h).take, ?_⟩
   cases hn : sp.mustBeNew with
   | false => exact Or.inl rfl
   | true =>
@@ -540,7 +620,7 @@ theorem c06_arith_checker (sp : Sp) (tgt : Val) (h : Heap) :
     | ok v =>
       cases v with
       | ref a =>
-        have := evalAuto_fresh sp tgt h (.ref a) h' hev hn a rfl
+        have := evalAuto_fresh sp hp tgt h (.ref a) h' hev hn a rfl
         simp only [decide_eq_false_iff_not, Nat.not_lt]
         exact this
       | _ => rfl
@@ -680,6 +760,44 @@ example : (evalAuto (.coalesce (.cons (.t (.cons .item (.lit (.str "zz")) .nil))
 open Glom in
 /-- `mustBeNew` is needed for the second half: `T['tags']` alone returns the target's own set -/
 example : (evalAuto (.t (.cons .item (.lit (.str "tags")) .nil)) (.ref 0) h0).1 = .ok (.ref 1) := by decide
+
+/-! callables: `Call(wrap, args=(T['xs'],))` builds a new list holding the target's list; `len` in a
+    chain; the mutating callable of the catalogue writes the target's own list — `Sp.pureCalls` is
+    forced, for the frame theorem and (as a hypothesis on the *earlier* calls) for `c06_repeat_same` -/
+
+open Glom in
+private def xsArg : Sps := .cons (.t (.cons .item (.lit (.str "xs")) .nil)) .nil
+
+open Glom in
+example : evalAuto (.call "wrap" xsArg) (.ref 0) h0 = (.ok (.ref 5), h0 ++ [.list "list" [.ref 2]]) ∧
+    (evalAuto (.seq .tuple (.cons (.t (.cons .item (.lit (.str "xs")) .nil)) (.cons (.lit (.fn "len")) .nil)))
+      (.ref 0) h0).1 = .ok (.int 1) := by decide
+
+open Glom in
+/-- **the hypothesis "no mutating user callable" is forced**: `Call(append9, args=(T['xs'],))` returns
+    the target's own list (address 2) with a 9 appended to it; afterwards `len` of that list — the
+    same call as before — gives 2 instead of 1 -/
+theorem c06_mutating_callable_counterexample :
+    (Sp.call "append9" xsArg).pureCalls = false ∧
+    (evalAuto (.call "append9" xsArg) (.ref 0) h0).1 = .ok (.ref 2) ∧
+    (evalAuto (.call "append9" xsArg) (.ref 0) h0).2[2]? = some (.list "list" [.int 1, .int 9]) ∧
+    (evalAuto (.call "len" xsArg) (.ref 0) h0).1 = .ok (.int 1) ∧
+    (evalAuto (.call "len" xsArg) (.ref 0) (runCalls [(.call "append9" xsArg, .ref 0)] h0)).1 = .ok (.int 2) := by
+  decide
+
+open Glom in
+/-- the model writes — the dict spec's own result, created empty at address 5 and then stored into:
+    the frame theorem is not about a store that cannot change -/
+example : (autoPairs (.cons (.lit (.str "k")) (.t (.cons .item (.lit (.str "xs")) .nil)) .nil) (.ref 0) 5
+      (h0 ++ [.dict "dict" []])).2[5]? = some (.dict "dict" [(.str "k", .ref 2)]) ∧
+    (h0 ++ [Obj.dict "dict" []])[5]? = some (.dict "dict" []) := by decide
+
+open Glom in
+/-- a mixed history in the domain of `c06_mixed_history`: a cache-level call, a heap-level call, a
+    registration, the same heap-level call again -/
+example : mixedOk (P := Bool) (H := Nat) (O := Bool × Option Nat) (R := Nat) h0.length
+    [.cache (.call strat0 5), .heap (.t orSpec) (.ref 0), .cache (.register 0 (· + 1)), .heap (.t orSpec) (.ref 0)] = true ∧
+    heapClosed h0 = true := by decide
 
 /-! repeated evaluation: `T['tags'] | {'b'}` twice — two different new sets, the same tree; the
     hypotheses of `c06_repeat_same` hold for `h0`; without "the spec's own objects existed"
